@@ -3,9 +3,11 @@
 //! * `sync`, `thread`: replacements for the `std::sync` / `std::thread` items rFSM uses, on shuttle.
 //! * `timer`: simulated replacement of the `timer` crate, driven by the simulated clock.
 //! * `probe`: session start / end hooks.
+//! * `collections`: `HashMap` / `HashSet` with a per-run seeded hasher.
 //! * `rec`: OS-thread-local history recorder and simulation bookkeeping.
 //! * `driver`: quiescence protocol used by the simulation driver.
 
+pub mod collections;
 pub mod driver;
 pub mod probe;
 pub mod rec;
